@@ -15,7 +15,7 @@ def _tok(x):
     return NONE if x is None else x
 
 
-def build(pre: dict):
+def build(pre: dict, rereg: bool = True):
     nv = len(pre["vname"])
     values = []
     for v in range(nv):
@@ -25,6 +25,17 @@ def build(pre: dict):
     graphs = []
     for g in (1, 2):
         graphs.append(ir.Graph([], [], nodes=[], initializers=[values[e[1] - 1] for e in pre["keys"][g - 1]], name=f"g{g}"))
+    # registering an initializer again under its own name changes nothing (alternating over the instances)
+    how = (nv + sum(len(k) for k in pre["keys"])) % 4
+    if how and rereg:
+        for gr in graphs:
+            for key, val in list(gr.initializers.items()):
+                if how == 1:
+                    gr.initializers[key] = val
+                elif how == 2:
+                    gr.register_initializer(val)
+                else:
+                    gr.initializers.add(val)
     return values, graphs
 
 
@@ -43,6 +54,12 @@ def run_instance(pre: dict, pairs: list) -> dict:
     values, graphs = build(pre)
     got = observe(values, graphs)
     if got != pre:
+        v0, g0 = build(pre, rereg=False)
+        if observe(v0, g0) == pre:
+            # the instance is fine, registering its initializers again (a no-op request) changed it: judged like a
+            # bulk rename that asked for nothing
+            return {"post": got, "out": "ok", "exc": "registering the initializers again under their own names changed the state",
+                    "pairs": []}
         return {"error": f"could not build {pre}: {got}"}
     out, exc = "ok", None
     try:
@@ -63,6 +80,10 @@ def _chunk(lines):
         o = run_instance(pre, pairs)
         if "error" in o:
             res.append({"error": o["error"]})
+            continue
+        if "pairs" in o:
+            res.append({"pre": pre, "pairs": o["pairs"], "post": o["post"], "out": o["out"], "exc": o["exc"], "conf": False,
+                        "pred": [pre, "ok"]})
             continue
         conf = o["post"] == post and (o["out"] == "ok") == (out == "ok")
         res.append({"pre": pre, "pairs": pairs, "post": o["post"], "out": o["out"], "exc": o["exc"], "conf": conf,
